@@ -63,6 +63,18 @@ func main() {
 	if reuseAll.N > 0 {
 		meta.GoOnly = append(meta.GoOnly, reuseAll)
 	}
+	if refillAll.N > 0 {
+		meta.GoOnly = append(meta.GoOnly, refillAll)
+	}
+	if attrOrderAll.N > 0 {
+		meta.GoOnly = append(meta.GoOnly, attrOrderAll)
+	}
+	if aliasAll.N > 0 {
+		meta.GoOnly = append(meta.GoOnly, aliasAll)
+	}
+	if sizeAll.N > 0 {
+		meta.GoOnly = append(meta.GoOnly, sizeAll)
+	}
 	if effectsAll.N > 0 && *prop != "C02" { // C02 reports the effects of all streams itself
 		meta.GoOnly = append(meta.GoOnly, effectsAll)
 	}
